@@ -53,6 +53,15 @@ func (o *Out) Text() string {
 	return b.String()
 }
 
+// Texts returns what was written, write by write.
+func (o *Out) Texts() []string {
+	var out []string
+	for _, c := range o.Chunks {
+		out = append(out, c.Text)
+	}
+	return out
+}
+
 // Lines splits the concatenated output into lines (without the final empty one).
 func (o *Out) Lines() []string {
 	t := o.Text()
